@@ -5,6 +5,7 @@ mod c06;
 mod c07;
 mod c09;
 mod c10;
+mod c11;
 mod c16;
 mod fw;
 mod indep;
@@ -53,6 +54,7 @@ fn main() {
         "C07" => c07::check(tier),
         "C09" => c09::check(tier),
         "C10" => c10::check(tier),
+        "C11" => c11::check(tier),
         "C16" => c16::check(tier),
         _ => {
             eprintln!("unknown check {id}");
